@@ -143,19 +143,21 @@ Proof.
 Qed.
 
 (* ------------------------------------------------------------------ create events belong to creations, in every state *)
-Lemma set_core_no_create g k id pend sup kw s :
+Lemma set_core_no_create g k id pend fired sup kw s :
   sig_eqb s SUpdate = false -> sig_eqb s SUpdated = false ->
-  existsb (is_sig s) (u_tr (set_core g k id pend sup kw)) = false.
+  existsb (is_sig s) (u_tr (set_core g k id pend fired sup kw)) = false.
 Proof.
   intros H1 H2. unfold set_core.
+  destruct (negb sup && is_some (raiser fired (sel SUpdate (tab g k)))); cbn [u_tr];
+    [apply no_other_sig_events; exact H1|].
   destruct sup; destruct (negb (validate _)); try destruct (is_lazy k); try destruct (is_nil _); cbn [u_tr];
-    repeat rewrite existsb_app; rewrite ?(no_other_sig_events _ _ _ _ _ _ H1), ?(no_other_sig_after_part _ _ _ _ _ H2);
+    repeat rewrite existsb_app; rewrite ?(no_other_sig_events _ _ _ _ _ _ H1), ?(no_other_sig_after_x _ _ _ _ _ _ H2);
     reflexivity.
 Qed.
 
-Lemma assign_core_no_create g k id pend c v s :
+Lemma assign_core_no_create g k id pend fired c v s :
   sig_eqb s SUpdate = false -> sig_eqb s SUpdated = false ->
-  existsb (is_sig s) (u_tr (assign_core g k id pend c v)) = false.
+  existsb (is_sig s) (u_tr (assign_core g k id pend fired c v)) = false.
 Proof. intros H1 H2. rewrite assign_core_is_set. apply set_core_no_create; assumption. Qed.
 
 Lemma step_no_create g st o s :
@@ -171,10 +173,13 @@ Proof.
   - destruct (h_get id _) as [h|]; [|reflexivity]. unfold commit_ures. cbn [snd fst]. apply set_core_no_create; assumption.
   - destruct (h_get id _) as [h|]; [|reflexivity]. unfold commit_ures, sync_core. cbn [snd fst].
     destruct (is_nil _); cbn [u_tr]; [reflexivity|].
-    rewrite existsb_app, (no_other_sig_after_part _ _ _ _ _ H2). reflexivity.
-  - destruct (h_get id _) as [h|]; [|reflexivity]. cbn [snd fst].
+    rewrite existsb_app, (no_other_sig_after_x _ _ _ _ _ _ H2). reflexivity.
+  - destruct (h_get id _) as [h|]; [|reflexivity].
+    destruct (raiser _ (sel SDestroy (tab g k))); cbn [snd fst]; [apply no_other_sig_events; exact H3|].
     repeat rewrite existsb_app.
-    rewrite (no_other_sig_events _ _ _ _ _ _ H3), no_sig_run_posts, (no_other_sig_after_part _ _ _ _ _ H4). reflexivity.
+    rewrite (no_other_sig_events _ _ _ _ _ _ H3), no_other_sig_posts_x.
+    destruct (p_raised (posts_x _ SDestroy k id _)); cbn [p_tr]; [reflexivity|].
+    rewrite (no_other_sig_after_x _ _ _ _ _ _ H4). reflexivity.
   - destruct (tbl_has id _); reflexivity.
   - reflexivity.
 Qed.
